@@ -29,6 +29,8 @@ structure Row where
   min : Nat
   max : Int
   kind : RefKind
+  /-- arity of the child's reference tuple: 6 for field/datatype references, 2 for segment/group ones -/
+  arity : Nat
   dt : Option String
   long : Option String
   table : Option String
